@@ -16,7 +16,7 @@ RULE = ("(a) every tag of the live registry (enumerated each run; ad-hoc and Eva
         "samples) in name / path / directory mode, also in filter and sort position; (b) generated trees, plans, orders, "
         "all strategies incl. override and scripted manual answers, filters, recursion/hidden flags (the C01 scenarios "
         "with --dry-run); each run under an audit hook and between two snapshots of lstat (mode, uid, gid, size, "
-        "mtime_ns, ctime_ns, inode, nlink) + content hash + link target of the whole sandbox, cwd compared before/after; "
+        "mtime_ns, ctime_ns, inode, nlink) + content hash + link target of the whole sandbox — which contains the run's HOME and XDG cache/config/data directories —, cwd compared before/after; "
         "non-trivial = at least one file was considered; distinct by the full case")
 ASSUMPTIONS = [
     "file access inside third-party metadata libraries (mutagen, PIL, pymediainfo, gpxpy, libmagic) is observed, not modelled",
